@@ -6,9 +6,12 @@ the result code predicted by Wopn!LoadWalk (leg A: WopnMC).  Playability half: i
 vibrato, portamento and audio generation on the real library (ASan, watchdog per call); a crash, sanitizer report or
 a call that does not return is a violation; the recorded steps are also judged by the Synth monitors (reported as
 MODEL-DRIFT only).  Termination of the octave / multiplier search of OPN2::noteOn is model-checked in spec/PitchMC
-(if present)."""
+(if present).  Instrument-API half ("every instrument written through the instrument API ..."): histories of
+gen_bank.edge_index_history - writes and reads at the indices around and beyond the 128 entries of banks that have
+neighbours in the bank map - through harness/drive_bank.cpp, judged by the monitors of spec/BankTrace.tla against
+spec/BankMap.tla (an index outside 0..127 is refused with -1 and every bank reads back unchanged)."""
 import json, os, random, time
-import checks, vcommon as vc, vtrace, gen_wopn, gen_synth
+import checks, vcommon as vc, vtrace, gen_wopn, gen_synth, gen_bank
 
 EXT16 = [-32768, -129, -12, 0, 12, 127, 32767]
 def extreme_ins(rng, i, idn):
@@ -65,7 +68,21 @@ def check_c02(pid, tier, replay):
         f, _, _ = vtrace.run_histories(pid + "r", "drive_wopn", "WopnTrace", [hist], nchunks=1, marker='{"o":"init"')
         return [x for x in f if x.prop in ("C02", "CRASH")]
 
+    def as_c02(fs):
+        """BankTrace tags its monitors with the property of the bank map; here they decide the instrument-API clause of C02"""
+        out = []
+        for x in fs:
+            if x.prop in ("C16", "CRASH"):
+                out.append(vtrace.Failure(pid if x.prop == "C16" else x.prop, "bank:" + x.what, x.history, x.step, x.event, x.detail))
+        return out
+
+    def rerun_bank(hist):
+        f, _, _ = vtrace.run_histories(pid + "r", "drive_bank", "BankTrace", [hist], nchunks=1, marker='{"o":"init"')
+        return as_c02(f)
+
     def rerun(hist):
+        if hist and "probe" in hist[0]:
+            return rerun_bank(hist)
         return rerun_play(hist) if hist and hist[0].get("e") == "Init" else rerun_load(hist)
 
     if replay:
@@ -89,6 +106,16 @@ def check_c02(pid, tier, replay):
     f2 = [x for x in f2 if x.prop == "CRASH"]
     for x in f2:
         x.what = "play:" + x.what
+    # --- instrument-API half: indices at and beyond the end of a bank, all banks read back after every call
+    brng = random.Random(vc.seed() * 7919 + 202)
+    bh = [gen_bank.edge_index_history(brng, 36 if q else 70) for _ in range(48 if q else 600)]
+    f3, c3, s3 = vtrace.run_histories(pid + "b", "drive_bank", "BankTrace", bh, nchunks=4 if q else 12, marker='{"o":"init"')
+    if s3["infra"]:
+        print("INFRA:", s3["infra"][0][:1500]); return 3
+    f3 = as_c02(f3)
+    if c3.get("drifted", 0):
+        print("MODEL-DRIFT: %d of %d recorded bank-API steps are not steps of spec/BankMap.tla (iteration order / capacity); first: %s"
+              % (c3["drifted"], c3.get("refined", 0), json.dumps(s3.get("drift", [])[:2])))
     # --- leg A: loader walk (WopnMC) and the frequency search loops (PitchMC) if available
     mruns = []
     try:
@@ -96,17 +123,20 @@ def check_c02(pid, tier, replay):
         mruns += checks_wopn.model_phase(True)
     except Exception as e:   # the C15 plug-in is the owner of that model
         print("NOTE: WopnMC not run (%s)" % e)
-    histories = lh + ph
-    failures = f1 + [vtrace.Failure(x.prop, x.what, x.history + len(lh), x.step, x.event, x.detail) for x in f2]
+    histories = lh + ph + bh
+    failures = f1 + [vtrace.Failure(x.prop, x.what, x.history + len(lh), x.step, x.event, x.detail) for x in f2] \
+                  + [vtrace.Failure(x.prop, x.what, x.history + len(lh) + len(ph), x.step, x.event, x.detail) for x in f3]
     coverage = {
         "states": sum(r.distinct for r in mruns), "transitions": sum(r.generated for r in mruns),
-        "traces_validated_against_impl": len(histories), "records_validated": s1["records"] + s2["records"],
+        "traces_validated_against_impl": len(histories), "records_validated": s1["records"] + s2["records"] + s3["records"],
+        "instrument_api": {"histories": len(bh), "calls": c3.get("steps", 0), "calls_with_an_index_beyond_the_bank": c3.get("badidx", 0),
+                           "readbacks": c3.get("readbacks", 0), "steps_refined": c3.get("refined", 0), "steps_drifted": c3.get("drifted", 0)},
         "loader": {"histories": len(lh), "loads": c1.get("c02_loads", 0), "through_opn2_openBankData": c1.get("c02_api", 0),
                    "rejected": c1.get("loads_rejected", 0), "accepted": c1.get("loads_ok", 0)},
         "playability": {"histories": len(ph), "calls": s2["records"], "note_ons": c2.get("noteon", 0),
                         "synth_monitor_failures_on_extreme_instruments_not_part_of_C02": len(other)},
         "samples": checks.sample_histories(ph, 1, 10) + [lh[0][:4]],
-        "evaluations": s1["records"] + s2["records"], "distinct_nontrivial": len(histories),
+        "evaluations": s1["records"] + s2["records"] + s3["records"], "distinct_nontrivial": len(histories),
         "rule": "one evaluation per loader call / per played API call; histories are distinct generated byte strings or extreme-instrument play scripts",
         "exhaustive": False,
     }
@@ -121,4 +151,5 @@ def check_c02(pid, tier, replay):
     return checks.conclude(pid, tier, level, histories, failures, rerun, coverage, t0,
                            ["ASan (address, bounds) build and a 20 s watchdog per call are the memory-safety / termination oracle",
                             "loader result codes are predicted by Wopn!LoadWalk (spec/Wopn.tla)",
+                            "instrument API: drive_bank observes return value, bank enumeration, look-ups and read-backs (indices 0 1 2 63 126 127 of every bank) after each call",
                             "extreme instruments cover field extremes and random operator bytes, not every byte combination"])
